@@ -749,6 +749,12 @@ def check_roundtrip_batch(ctx, drv, cases, tag):
       rec['fail'] = rec['fail'] or ('to_state_dict-raises', f'to_state_dict raised {r_sd[1:]}')
       continue
     sd = r_sd[1]
+    if state_impure(sd):
+      rec['fail'] = rec['fail'] or ('state-dict-not-pure', f'to_state_dict left a non-dict container in the state dict at {state_impure(sd)}')
+      r_x = call(serialization.from_state_dict, obj, sd)
+      r_y = call(serialization.to_bytes, obj)
+      rec['fail'] = (rec['fail'][0], rec['fail'][1] + f'; from_state_dict(t, to_state_dict(t)) -> {r_x[0]} {r_x[1] if r_x[0] != "ok" else ""}; to_bytes(t) -> {r_y[0]} {r_y[1] if r_y[0] != "ok" else ""}')
+      continue
     rec['sd'] = describe_state(sd)
     r_rt = call(serialization.from_state_dict, obj, sd)
     if r_rt[0] != 'ok':
@@ -933,6 +939,20 @@ def skeleton_differs(target, restored):
   return frozen_clean(restored)
 
 
+def state_impure(sd, path='.'):
+  """a state dict holds only plain dicts (string keys) and leaves: returns the path and type of the first
+  list / tuple / namedtuple / dataclass / FrozenDict object left in it, or None"""
+  if type(sd) is dict:
+    for k, v in sd.items():
+      r = state_impure(v, path + '/' + str(k))
+      if r:
+        return r
+    return None
+  if isinstance(sd, (list, tuple, dict, FrozenDict)) or is_struct(sd):
+    return f'{path}: {type(sd).__name__}'
+  return None
+
+
 LEGACY = {'name', 'fields', 'values'}
 
 
@@ -994,7 +1014,8 @@ def check_restore_batch(ctx, drv, cases, tag):
     if snapshot(tgt) != snap_t or snapshot(st) != snap_s:
       rec['fail'] = ('frame-from_state_dict', 'from_state_dict modified its target or the state')
     # a second, well-formed restore right after: error bookkeeping (path stack) must not leak
-    r_after = call(serialization.from_state_dict, tgt, serialization.to_state_dict(tgt))
+    r_sd_after = call(serialization.to_state_dict, tgt)
+    r_after = call(serialization.from_state_dict, tgt, r_sd_after[1]) if r_sd_after[0] == 'ok' else r_sd_after
     if r_after[0] != 'ok' or norm(describe(r_after[1])) != norm(D):
       rec['fail'] = rec['fail'] or ('restore-after-error', f'a plain round trip right after this restore fails: {str(r_after)[:200]}')
     elif skeleton_differs(tgt, r_after[1]):
@@ -1350,6 +1371,13 @@ def small_targets():
   f3 = {'t': 'fdict', 'kv': [[hx('params'), f2], [hx('stats'), {'t': 'fdict', 'kv': [[hx('m'), f1]]}]]}
   fams += [f2, f3, {'t': 'list', 'xs': [f2, L(1)]}, {'t': 'named', 'cls': 'P2', 'kv': [[hx('a'), f2], [hx('b'), L(2)]]},
            {'t': 'struct', 'cls': 'Q1', 'aux': 4, 'kv': [[hx('a'), f3]]}, {'t': 'dict', 'kv': [[hx('v'), f2]]}]
+  # FrozenDict holding non-dict registered containers as direct values, at depth 1, 2 and 3
+  nd_vals = [{'t': 'list', 'xs': [L(1), A]}, {'t': 'tuple', 'xs': [A]}, {'t': 'named', 'cls': 'P2', 'kv': [[hx('a'), L(1)], [hx('b'), A]]},
+             {'t': 'struct', 'cls': 'Q1', 'aux': 8, 'kv': [[hx('a'), A]]}]
+  for v in nd_vals:
+    g1 = {'t': 'fdict', 'kv': [[hx('v'), v], [hx('w'), L(5)]]}
+    g2 = {'t': 'fdict', 'kv': [[hx('inner'), g1]]}
+    fams += [g1, g2, {'t': 'fdict', 'kv': [[hx('outer'), g2]]}]
   # one level of nesting: each container kind holding containers
   inner = [{'t': 'dict', 'kv': [[hx('a'), L(1)]]}, {'t': 'list', 'xs': [L(1), A]}, {'t': 'tuple', 'xs': []}, {'t': 'named', 'cls': 'P2', 'kv': [[hx('a'), L(1)], [hx('b'), A]]}]
   for x, y in itertools.product(inner, repeat=2):
@@ -1377,8 +1405,12 @@ def exhaustive_restore(ctx, drv):
   states = []
   for t in fams:
     r = call(serialization.to_state_dict, build(t))
-    if r[0] != 'ok':
-      raise InfraError(f'to_state_dict failed on a small target: {r}')
+    if r[0] != 'ok' or state_impure(r[1]):
+      what = f'raised {r[1:]}' if r[0] != 'ok' else f'left a non-dict container in the state dict at {state_impure(r[1])}'
+      ctx.violation('exh-state-dict-not-pure' if r[0] == 'ok' else 'exh-to_state_dict-raises', f'to_state_dict {what} — tree {str(norm(t))[:300]}',
+                    {'kind': 'roundtrip', 'tree': t, 'T': [DEFAULT_T]}, concrete=True)
+      states.append({'d': []})  # keeps targets and states aligned
+      continue
     states.append(describe_state(r[1]))
   states += legacy_states()
   # every struct state again with one surplus key named like one of its own static fields
@@ -1464,13 +1496,20 @@ def run(ctx):
   # mismatch stream: one structural edit per case
   n_mm = 1500 if not thorough else 30000
   mm = []
+  skipped_impure = 0
   while len(mm) < n_mm:
     tree = fix_frozen(gen_tree(rng, rng.choice([1, 2, 2, 3, 4])))
     if not (isinstance(tree, dict) and 't' in tree):
       continue
     obj = build(tree)
     D = describe(obj)
-    sd = describe_state(serialization.to_state_dict(obj))
+    r_sd = call(serialization.to_state_dict, obj)
+    if r_sd[0] != 'ok' or state_impure(r_sd[1]):
+      skipped_impure += 1
+      if skipped_impure > 5000:
+        break
+      continue  # reported by the round-trip stream on the same kind of tree
+    sd = describe_state(r_sd[1])
     for _ in range(3):
       st, kind, path, exp = edit_state(rng, D, sd)
       mm.append({'kind': 'restore', 'target': tree, 'state': st, 'edit': kind, 'path': list(path), 'expect': exp})
